@@ -40,6 +40,9 @@ type Link struct {
 	Missing        bool // CID listed in the proofs but absent from the loader
 	LoadErr        bool // loader returns an unrelated error for it
 	PolIPLD        bool // build the policy through policy.FromIPLD instead of the constructors
+	// NonDlg: the proof CID at this position is the CID of a token that IS in the loader's
+	// container but is not a delegation (an invocation sealed by Iss)
+	NonDlg bool
 }
 
 // Scenario is one invocation with its proof chain.
@@ -70,7 +73,7 @@ func (s *Scenario) PrincipalsOK() (bool, string) {
 		return false, "empty"
 	}
 	for i, l := range s.Links {
-		if l.Missing || l.LoadErr {
+		if l.Missing || l.LoadErr || l.NonDlg {
 			return false, fmt.Sprintf("unloadable@%d", i)
 		}
 	}
@@ -278,6 +281,25 @@ func (s *Scenario) Build(r *rand.Rand) (*Built, error) {
 	errs := map[cid.Cid]bool{}
 	wr := container.NewWriter()
 	for i, l := range s.Links {
+		if l.NonDlg {
+			// an invocation stands where a delegation is referenced
+			cmd, err := command.Parse(l.Cmd)
+			if err != nil {
+				return nil, fmt.Errorf("link %d command: %w", i, err)
+			}
+			iv, err := invocation.New(l.Iss.DID, l.Iss.DID, cmd, nil)
+			if err != nil {
+				return nil, fmt.Errorf("link %d stand-in invocation: %w", i, err)
+			}
+			sealed, c, err := iv.ToSealed(l.Iss.Priv)
+			if err != nil {
+				return nil, fmt.Errorf("link %d stand-in seal: %w", i, err)
+			}
+			b.Cids = append(b.Cids, c)
+			b.Sealed = append(b.Sealed, sealed)
+			wr.AddSealed(c, sealed)
+			continue
+		}
 		d, err := BuildDelegation(l, r)
 		if err != nil {
 			return nil, fmt.Errorf("link %d: %w", i, err)
@@ -442,7 +464,7 @@ func (s *Scenario) Describe() map[string]any {
 	for _, l := range s.Links {
 		links = append(links, map[string]any{
 			"iss": pname(l.Iss), "aud": pname(l.Aud), "sub": pname(l.Sub), "cmd": l.Cmd, "pol": l.Pol.String(),
-			"nbf": dur(l.Nbf), "exp": dur(l.Exp), "missing": l.Missing, "loaderr": l.LoadErr,
+			"nbf": dur(l.Nbf), "exp": dur(l.Exp), "missing": l.Missing, "loaderr": l.LoadErr, "not_a_delegation": l.NonDlg,
 		})
 	}
 	return map[string]any{
@@ -477,6 +499,9 @@ func (s *Scenario) Pattern() string {
 		}
 		if l.LoadErr {
 			b.WriteString(" loaderr")
+		}
+		if l.NonDlg {
+			b.WriteString(" non-delegation")
 		}
 		b.WriteString("]")
 	}
